@@ -18,6 +18,7 @@ import (
 func init() {
 	mon.Register(&mon.Check{
 		ID:        "C06",
+		Boost:     4,
 		Batches:   func(tier string) int { return 16 },
 		Run:       runC06,
 		Technique: "raw-header runtime monitor: requests with every header are sent to the real server loop in lock-step over a scripted connection; the reply bytes are re-framed and compared octet by octet with the header the RFC demands and with the reference pad",
